@@ -496,8 +496,38 @@ func TestC14Codecs(t *testing.T) {
 		nm := rapid.IntRange(1, 8).Draw(t, "nmut")
 		for i := 0; i < nm; i++ {
 			mut := append([]byte(nil), raw...)
-			op := rapid.SampledFrom([]string{"truncate", "truncate", "flip", "inflate", "splice", "append"}).Draw(t, "mutop")
+			op := rapid.SampledFrom([]string{"truncate", "truncate", "flip", "inflate", "splice", "append", "overlimit", "overlimit"}).Draw(t, "mutop")
+			mustReject := false
 			switch op {
+			case "overlimit":
+				// replace the header of one array / map / byte string / text string of the valid
+				// encoding (found with an independent CBOR walker) by one announcing a length far
+				// beyond every documented limit and beyond the bytes that follow: never decodable
+				hs := cborHeaders(raw)
+				var cands []cborHeader
+				for _, h := range hs {
+					if h.major == 2 || h.major == 3 || h.major == 4 || h.major == 5 {
+						cands = append(cands, h)
+					}
+				}
+				if len(cands) == 0 {
+					op = "truncate-all"
+					mut = mut[:0]
+					if len(raw) == 0 {
+						mustReject = false
+					} else {
+						mustReject = true
+					}
+					break
+				}
+				h := cands[rapid.IntRange(0, len(cands)-1).Draw(t, "hdrpos")]
+				L := rapid.SampledFrom([]uint64{1 << 31, 1<<32 - 1, 1 << 32, 1<<63 - 1, 1 << 63, 1<<63 + 1, 1<<64 - 1, 1<<64 - 129, 1 << 40}).Draw(t, "announced")
+				nh := []byte{byte(h.major<<5) | 27, byte(L >> 56), byte(L >> 48), byte(L >> 40), byte(L >> 32), byte(L >> 24), byte(L >> 16), byte(L >> 8), byte(L)}
+				if L < 1<<32 && rapid.Bool().Draw(t, "short") {
+					nh = []byte{byte(h.major<<5) | 26, byte(L >> 24), byte(L >> 16), byte(L >> 8), byte(L)}
+				}
+				mut = append(append(append([]byte(nil), raw[:h.off]...), nh...), raw[h.off+h.hlen:]...)
+				mustReject = true
 			case "truncate":
 				if len(mut) > 0 {
 					mut = mut[:rapid.IntRange(0, len(mut)-1).Draw(t, "cut")]
@@ -537,6 +567,9 @@ func TestC14Codecs(t *testing.T) {
 			}
 			if alloc > allocBound {
 				vev.Fail(t, c14, "C14/codec/decode-allocation", "%s: decoding %d mutated bytes (%s) allocated %d bytes", c.name, len(mut), op, alloc)
+			}
+			if mustReject && rerr == nil {
+				vev.Fail(t, c14, "C14/codec/over-limit-accepted", "%s: an encoding in which one length header was replaced by one announcing a length beyond every limit (and beyond the input) decoded without error (%s)", c.name, op)
 			}
 			if op == "truncate" && rerr == nil {
 				vev.Fail(t, c14, "C14/codec/truncated-accepted", "%s: a strict prefix (%d of %d bytes) of a valid encoding decoded without error", c.name, len(mut), len(raw))
@@ -588,4 +621,80 @@ func TestC14ZstdBombs(t *testing.T) {
 	// an encoder must refuse what a decoder cannot take back
 	big := &gpbft.GMessage{Vote: gpbft.Payload{Value: &gpbft.ECChain{}}}
 	_ = big
+}
+
+
+type cborHeader struct {
+	off, hlen int
+	major     byte
+	arg       uint64
+}
+
+// cborHeaders walks one well-formed CBOR item (independent of cbor-gen) and
+// returns the position of every header in it; nil if the bytes are not one
+// well-formed item.
+func cborHeaders(b []byte) []cborHeader {
+	var out []cborHeader
+	var walk func(off int, depth int) int
+	walk = func(off int, depth int) int {
+		if off < 0 || off >= len(b) || depth > 64 {
+			return -1
+		}
+		ib := b[off]
+		major, info := ib>>5, ib&31
+		hlen, arg := 1, uint64(info)
+		switch {
+		case info < 24:
+		case info == 24:
+			hlen = 2
+		case info == 25:
+			hlen = 3
+		case info == 26:
+			hlen = 5
+		case info == 27:
+			hlen = 9
+		default:
+			return -1
+		}
+		if off+hlen > len(b) {
+			return -1
+		}
+		if hlen > 1 {
+			arg = 0
+			for _, x := range b[off+1 : off+hlen] {
+				arg = arg<<8 | uint64(x)
+			}
+		}
+		out = append(out, cborHeader{off: off, hlen: hlen, major: major, arg: arg})
+		next := off + hlen
+		switch major {
+		case 0, 1, 7:
+			return next
+		case 2, 3:
+			if arg > uint64(len(b)-next) {
+				return -1
+			}
+			return next + int(arg)
+		case 4, 5:
+			n := arg
+			if major == 5 {
+				n *= 2
+			}
+			if n > uint64(len(b)) {
+				return -1
+			}
+			for i := uint64(0); i < n; i++ {
+				if next = walk(next, depth+1); next < 0 {
+					return -1
+				}
+			}
+			return next
+		default: // tag
+			return walk(next, depth+1)
+		}
+	}
+	if end := walk(0, 0); end != len(b) {
+		return nil
+	}
+	return out
 }
